@@ -1,7 +1,6 @@
 package engines
 
 import (
-	"reflect"
 	"bytes"
 	"encoding/base64"
 	"encoding/hex"
@@ -9,6 +8,7 @@ import (
 	"fmt"
 	"net/url"
 	"os"
+	"reflect"
 	"runtime"
 	"sort"
 	"strconv"
